@@ -155,9 +155,11 @@ LayoutViol(e) ==
   LET c == e.c
       r == e.r
       n == Len(r.chunks)
+      \* the receiver did not get the message back: the decoded message differs, or the reassembled body does not decode at all
+      lost == (r.fail = "none" /\ ~r.eq) \/ (r.fail # "none" /\ r.stage = "decode")
   IN IF r.len # c.len THEN {"case-not-built:message-size"}
-     ELSE IF r.fail # "none" THEN {"roundtrip-failed:" \o r.stage \o ":" \o r.site}
-     ELSE (IF r.eq THEN {}
+     ELSE IF r.fail # "none" /\ r.stage # "decode" THEN {"roundtrip-failed:" \o r.stage \o ":" \o r.site}
+     ELSE (IF ~lost THEN {}
            ELSE {"reassembly:" \o (IF c.kind = "msg" /\ c.mode = "Sign" /\ n >= 2 /\ r.diffat = r.chunks[1].body /\ r.relen > c.len
                                    THEN "DevSignPadded" ELSE "unexplained")})
      \cup (IF \A i \in 1..n : r.chunks[i].seq = c.seq0 + i - 1 /\ r.chunks[i].rseq = c.seq0 + i - 1 THEN {} ELSE {"sequence-numbers-not-consecutive"})
